@@ -84,6 +84,23 @@ META = {
         "technique": "TLA+ relation spec, TLC exhaustive + batch trace validation of pysim traces",
         "design_ref": "DESIGN.md §5 C43",
     },
+    "C44": {
+        "text": "IdleHandshake.tla states the handshake rule of USB3 7.5.4.10 on the 32-bit interface (complete only "
+                "after 4 cycles = 16 symbols sent since enable and 2 consecutive valid idle words = 8 symbols "
+                "received, not-valid words being no symbols); LinkTimers.tla is an explicit-time reference of the U0 "
+                "keepalive (10 us) and recovery (1 ms) timers with arming. TLC explores all enable / word schedules "
+                "resp. all strobe schedules with scaled constants and proves the property restated over the history "
+                "(CompleteOnlyWhenEarned; KeepaliveInTime, RecoveryInTime, RecoveryNeverEarly). The real "
+                "IdleHandshakeHandler is driven with random and structured enable / word streams, the real "
+                "LinkMaintenanceTimers (clock scaled through ss_clock_frequency: 0.7, 1, 3 MHz and the real 125 MHz) "
+                "with link commands sent / received one to three cycles around both thresholds, disable / enable, "
+                "answered and unanswered keepalives; TLC validates every (run-length encoded) cycle.",
+        "note": "Idle handshake: safety only, as the property is worded. Timers: +-1 cycle on the keepalive, "
+                "0..+1 cycle on recovery; strobes of a timer that fired and was not re-armed are free (counter "
+                "roll-over is documented as don't-care).",
+        "technique": "TLA+ explicit-time spec, TLC exhaustive (scaled constants) + batch trace validation of pysim traces",
+        "design_ref": "DESIGN.md §5 C44",
+    },
 }
 
 
@@ -1324,4 +1341,240 @@ def check_C43(rep):
             rep.sample({"config": items[0][1], "records": [r for r in items[0][0] if r["ow"]["v"] or r["det"]][:6]})
 
 
-CHECKS = {"C35": check_C35, "C36": check_C36, "C40": check_C40, "C43": check_C43}
+# ================================================================================================
+# C44  idle handshake and U0 link timers
+# ================================================================================================
+class IdleBench:
+    def __init__(self):
+        use_repo()
+        from luna.gateware.usb.usb3.link.idle import IdleHandshakeHandler
+        self.dut = IdleHandshakeHandler()
+        self.sim = StepSim(self.dut)
+
+    def run(self, stim):
+        dut = self.dut
+        recs = []
+
+        async def bench(ctx):
+            for en, w in stim:
+                ctx.set(dut.enable, int(en))
+                set_word(ctx, dut.sink, w)
+                recs.append({"en": bool(en), "iw": w, "cpl": bool(ctx.get(dut.idle_handshake_complete))})
+                await ctx.tick("ss")
+        self.sim.run(bench)
+        return recs
+
+
+IDLEW = word(0, 0)
+
+
+def idle_stim(rng, n, clean):
+    """(enable, word) per cycle.  clean: not-valid words never look like logical idle (the open finding's
+    trigger) and the first word after reset is not idle (the reset value of the handler's word register is)."""
+    def nonidle():
+        return rng.choice([word(rng.getrandbits(32) | 1, 0), word(0, rng.choice([1, 8, 15])), word(1 << rng.randrange(32), 0)])
+
+    def invalid():
+        if clean or rng.random() < 0.3:
+            return dict(nonidle(), v=False)
+        return dict(IDLEW, v=False)
+    out = [(rng.random() < 0.5, nonidle() if clean else rng.choice([IDLEW, dict(IDLEW, v=False)]))]
+    en = out[0][0]
+    while len(out) < n:
+        mood = rng.choice(["idle_run", "one_idle", "noise", "gappy_idle", "toggle", "short_enable"])
+        if mood == "toggle":
+            en = not en
+            out.append((en, rng.choice([IDLEW, nonidle()])))
+        elif mood == "short_enable":        # enabled for 1..4 cycles with idle flowing, then off
+            for _ in range(rng.randrange(1, 5)):
+                out.append((True, IDLEW))
+            en = False
+            out.append((en, IDLEW))
+        elif mood == "idle_run":
+            for _ in range(rng.randrange(2, 8)):
+                out.append((en, IDLEW))
+        elif mood == "one_idle":
+            out.append((en, IDLEW))
+            out.append((en, nonidle()))
+        elif mood == "gappy_idle":
+            for _ in range(rng.randrange(1, 4)):
+                out.append((en, IDLEW))
+                for _ in range(rng.randrange(0, 3)):
+                    out.append((en, invalid()))
+        else:
+            for _ in range(rng.randrange(1, 6)):
+                out.append((en, rng.choice([nonidle(), invalid()])))
+    return out[:n]
+
+
+class TimersBench:
+    def __init__(self, freq):
+        use_repo()
+        from luna.gateware.usb.usb3.link.timers import LinkMaintenanceTimers
+        self.dut = LinkMaintenanceTimers(ss_clock_frequency=freq)
+        self.sim = StepSim(self.dut)
+
+    def run(self, script, rng):
+        """script: list of events {"dt": quiet cycles before, "en", "rx", "pkt", "tx"} (inputs of one cycle);
+        "answer": after a schedule_keepalive strobe, transmit a link command that many cycles later (None: never)."""
+        dut = self.dut
+        recs = []
+
+        async def bench(ctx):
+            en = 0
+            pending_tx = None
+
+            def cycle(rx=0, pkt=0, tx=0):
+                ctx.set(dut.enable, en)
+                ctx.set(dut.link_command_received, rx)
+                ctx.set(dut.packet_received, pkt)
+                ctx.set(dut.link_command_transmitted, tx)
+                r = {"n": 1, "en": bool(en), "rx": bool(rx), "pkt": bool(pkt), "tx": bool(tx),
+                     "ka": bool(ctx.get(dut.schedule_keepalive)), "rec": bool(ctx.get(dut.transition_to_recovery))}
+                if recs and recs[-1]["n"] >= 1 and all(recs[-1][k] == r[k] for k in ("en", "rx", "pkt", "tx", "ka", "rec")) \
+                        and not (r["rx"] or r["pkt"] or r["tx"] or r["ka"] or r["rec"]):
+                    recs[-1]["n"] += 1
+                else:
+                    recs.append(r)
+                return r
+            for ev in script:
+                for _ in range(ev.get("dt", 0)):
+                    tx = 0
+                    if pending_tx is not None:
+                        if pending_tx == 0:
+                            tx, pending_tx = 1, None
+                        else:
+                            pending_tx -= 1
+                    r = cycle(tx=tx)
+                    if r["ka"] and pending_tx is None and ev.get("answer") is not None:
+                        pending_tx = ev["answer"]
+                    await ctx.tick("ss")
+                if "en" in ev:
+                    en = int(ev["en"])
+                r = cycle(rx=int(ev.get("rx", 0)), pkt=int(ev.get("pkt", 0)), tx=int(ev.get("tx", 0)))
+                if r["ka"] and ev.get("answer") is not None:
+                    pending_tx = ev["answer"]
+                await ctx.tick("ss")
+        self.sim.run(bench)
+        return recs
+
+
+def timers_script(rng, K, R, length):
+    """Events placed around the thresholds: link commands sent / received just before, at and after the
+    keepalive interval K and the recovery timeout R; disable / enable; unanswered keepalives."""
+    sc = [{"dt": rng.randrange(0, 3), "en": True}]
+    t = 0
+    while t < length:
+        kind = rng.choice(["tx_near_K", "rx_near_R", "answering", "silence_R", "disable", "burst", "pkt_near_R"])
+        ans = rng.choice([0, 0, 1, 2, 5, None])
+        if kind == "tx_near_K":
+            dt = max(0, K + rng.choice([-3, -2, -1, 0, 1, 2, 5]))
+            sc.append({"dt": dt, "tx": 1, "answer": ans})
+        elif kind in ("rx_near_R", "pkt_near_R"):
+            dt = max(0, R + rng.choice([-3, -2, -1, 0, 1, 3]))
+            sc.append({"dt": dt, "rx": int(kind == "rx_near_R"), "pkt": int(kind != "rx_near_R"), "answer": rng.choice([0, 1, 3])})
+        elif kind == "answering":
+            sc.append({"dt": rng.randrange(K, 4 * K + 2), "answer": rng.choice([0, 1, 2, 5]), "tx": rng.randrange(2)})
+        elif kind == "silence_R":
+            sc.append({"dt": R + rng.randrange(2, 12), "answer": rng.choice([0, 1, None])})
+            sc.append({"dt": 0, "en": False})
+            sc.append({"dt": rng.randrange(0, 4), "en": True, "rx": rng.randrange(2)})
+        elif kind == "disable":
+            sc.append({"dt": rng.randrange(0, K + 2), "en": False, "tx": rng.randrange(2), "rx": rng.randrange(2)})
+            sc.append({"dt": rng.randrange(0, 4), "en": True})
+        else:
+            for _ in range(rng.randrange(2, 6)):
+                sc.append({"dt": rng.randrange(0, 3), "tx": rng.randrange(2), "rx": rng.randrange(2), "pkt": rng.randrange(2), "answer": ans})
+        t += sc[-1].get("dt", 0) + 1
+    sc.append({"dt": 3})
+    return sc
+
+
+def classify_idle(trace, matched, status, meta):
+    k = matched
+    pattern = "other"
+    if status == "idle_complete_without_8_valid_idle_symbols":
+        zeros = [r for r in trace[:k] if not r["iw"]["v"] and r["iw"]["d"] == [0, 0, 0, 0] and r["iw"]["c"] == 0]
+        first_idle = trace[0]["iw"]["v"] and trace[0]["iw"]["d"] == [0, 0, 0, 0] and trace[0]["iw"]["c"] == 0
+        if zeros:
+            pattern = "not_valid_zero_words_counted_as_idle"
+        elif first_idle:
+            pattern = "reset_value_of_word_register_counted_as_idle"
+    return {"clause": status, "pattern": pattern}
+
+
+def check_C44(rep):
+    quick = rep.tier == "quick"
+    rng = rep.rng
+    rep.rule = ("cycles of the real IdleHandshakeHandler / LinkMaintenanceTimers validated by TLC; distinct by "
+                "(module, clock, outcome events: completions, keepalives scheduled, recovery requests, event kinds)")
+    rep.assume("idle handshake: safety only (complete => 16 symbols sent since enable and 8 consecutive valid idle "
+               "symbols received, the last of them while enabled); not-valid words are no symbols")
+    rep.assume("timers: keepalive interval 10 us and recovery timeout 1 ms in cycles of the constructor's clock; "
+               "keepalive due in the interval's last cycle +-1 cycle, recovery due then or one cycle later, never earlier; "
+               "after a timer fired and before it is re-armed (link command sent / received, disable) further strobes are free")
+
+    _mc(rep, "MCIdleHandshake", tlc.render_cfg(_cfg("MCIdleHandshake.cfg.tmpl"), {"MaxCycles": 7 if quick else 8}),
+        "MCIdleHandshake (all enable / word-class schedules)", {"MaxCycles": 7 if quick else 8})
+    for K, R in ([(3, 5), (2, 4)] if quick else [(3, 5), (2, 4), (4, 9), (5, 7)]):
+        _mc(rep, "MCLinkTimers", tlc.render_cfg(_cfg("MCLinkTimers.cfg.tmpl"), {"KeepCycles": K, "RecCycles": R}),
+            "MCLinkTimers (scaled KeepCycles=%d RecCycles=%d)" % (K, R), {"KeepCycles": K, "RecCycles": R})
+
+    # ---- idle handshake -----------------------------------------------------------------------------------
+    ib = IdleBench()
+    clean, witness = [], []
+    for k in range(30 if quick else 200):
+        recs = ib.run(idle_stim(rng, 120, clean=True))
+        rep.add_eval(len(recs))
+        clean.append((recs, {"dut": "IdleHandshakeHandler", "class": "clean"}))
+        rep.nontriv(("idle", "clean", sum(1 for a, b in zip(recs, recs[1:]) if b["cpl"] and not a["cpl"])))
+    # structured: enabled exactly 1..6 cycles with idle flowing; one idle word only; idle before enable only
+    for n_en in range(1, 8):
+        for pre in (0, 1, 3):
+            st = [(False, word(5, 0))] + [(False, IDLEW)] * pre + [(True, IDLEW)] * n_en + [(False, IDLEW)] * 2
+            recs = ib.run(st)
+            rep.add_eval(len(recs))
+            clean.append((recs, {"dut": "IdleHandshakeHandler", "class": "clean-structured"}))
+    for k in range(10 if quick else 60):
+        recs = ib.run(idle_stim(rng, 60, clean=False))
+        rep.add_eval(len(recs))
+        witness.append((recs, {"dut": "IdleHandshakeHandler", "class": "witness"}))
+    for pre in (0, 2):          # a single valid idle word in the first cycle after reset, nothing idle afterwards
+        st = [(pre == 0, IDLEW)] + [(False, word(3, 0))] * pre + [(True, word(9, 0))] * 7
+        recs = ib.run([(True, IDLEW)] + [(True, word(9, 0))] * 7 if pre == 0 else st)
+        rep.add_eval(len(recs))
+        witness.append((recs, {"dut": "IdleHandshakeHandler", "class": "witness-reset-value"}))
+    cfg = _cfg("IdleHandshakeTrace.cfg.tmpl")
+    validate_group(rep, SPEC_DIR, "IdleHandshakeTrace", cfg, clean, classify=classify_idle, what_prefix="(clean stimuli) ")
+    validate_group(rep, SPEC_DIR, "IdleHandshakeTrace", cfg, witness, classify=classify_idle)
+    ncpl = sum(1 for t, _ in clean for a, b in zip(t, t[1:]) if b["cpl"] and not a["cpl"])
+    rep.notes.append("idle handshakes completed in clean traces: %d" % ncpl)
+    if ncpl == 0:
+        raise tlc.TLCError("vacuous: the idle handshake never completed in any clean trace")
+
+    # ---- link maintenance timers ---------------------------------------------------------------------------
+    clocks = [(1e6, 6), (3e6, 3), (0.7e6, 3)] + ([(125e6, 1)] if quick else [(125e6, 3), (10e6, 4)])
+    nka = nrec = 0
+    for freq, ntr in clocks:
+        K = int(10 * freq) // 10 ** 6            # 10 us and 1 ms in cycles (from the property, not from the module)
+        R = int(freq) // 1000
+        tb = TimersBench(freq)
+        items = []
+        for _ in range(ntr if quick else 3 * ntr):
+            recs = tb.run(timers_script(rng, K, R, length=(4 if freq < 1e8 else 1.3) * R), rng)
+            rep.add_eval(sum(r["n"] for r in recs))
+            items.append((recs, {"dut": "LinkMaintenanceTimers", "clock_hz": freq, "KeepCycles": K, "RecCycles": R}))
+            nka += sum(r["ka"] for r in recs)
+            nrec += sum(r["rec"] for r in recs)
+            rep.nontriv(("timers", freq, sum(r["ka"] for r in recs), sum(r["rec"] for r in recs)))
+        cfg = tlc.render_cfg(_cfg("LinkTimersTrace.cfg.tmpl"), {"KeepCycles": K, "RecCycles": R})
+        validate_group(rep, SPEC_DIR, "LinkTimersTrace", cfg, items, steps_of=lambda t: len(t),
+                       what_prefix="LinkMaintenanceTimers ")
+        if len(rep.samples) < 4:
+            rep.sample({"clock_hz": freq, "KeepCycles": K, "RecCycles": R, "records": items[0][0][:8]})
+    rep.notes.append("keepalives scheduled: %d, recovery requests: %d in validated timer traces" % (nka, nrec))
+    if nka == 0 or nrec == 0:
+        raise tlc.TLCError("vacuous: timers never fired in the recorded traces")
+
+
+CHECKS = {"C35": check_C35, "C36": check_C36, "C40": check_C40, "C43": check_C43, "C44": check_C44}
